@@ -14,7 +14,8 @@ package main
 // genC10NC is the product  {where the constraint sits} x {permitted domains} x {leaf names} x {host forms}; the
 // ops are ordinary `chain` ops (same Lean model: Model.X509.constraintName / permittedOK).  It also contains the
 // cases of the neighbouring report (a leaf with a second SAN outside the subtree, a certificate's own permitted
-// domains applied to itself), whose verdicts the repair does not change.
+// domains applied to itself), whose verdicts that repair did not change.  (The second one was repaired in round 11:
+// the verified certificate's own permitted domains are no longer applied to it, see c10leafnc.go.)
 
 import (
 	"fmt"
@@ -92,8 +93,8 @@ func genC10NC(r *rng, tier string, emit func(string)) {
 			one("inter", perm, lf, "-", "2")
 		}
 	}
-	// the verified certificate is itself a name-constrained CA (its own permitted domains are applied to it: not
-	// changed by the repair), for each host form
+	// the verified certificate is itself a name-constrained CA (its own permitted domains were applied to it as
+	// found; since the repair of round 11 they are not), for each host form
 	for _, host := range hosts {
 		root := certDesc{id: 1, subj: 10, iss: 10, key: 10, signer: 10, ski: -1, aki: -1, nb: -100, na: 100, bc: true, ca: true, mpl: -1, pool: "r"}
 		ca := certDesc{id: 2, subj: 20, iss: 10, key: 20, signer: 10, ski: -1, aki: -1, nb: -100, na: 100, bc: true, ca: true, mpl: -1, pool: "l",
